@@ -8,12 +8,12 @@ Definition gen_rfast := tbl_fast gen_render_fastpath.
 Definition gen_mfast := tbl_fast gen_macro_fastpath.
 
 (* (1) For every file set, every scope and every render expression:
-   {{ render p }} and {% var v = render p %}{{ v }} are lowered (by the code's
+   {{ render p }} and {% var v = render p %}{{ v }} are lowered (by the code
    own fast path tables) to instructions that produce the same output and the
    same outcome -- for every pair of formats.  Hypotheses: the rendered file
    has no deferred call (else refuted, see below), the context is a plain
    context outside a URL, the renderer is outside a URL, the file renders
-   without error, a value of the context's own format type is written as it
+   without error, a value of the context own format type is written as it
    is and a Markdown value in HTML is converted by the configured converter. *)
 Definition C16_render_value_statement : Prop :=
   forall vals showf conv cf fs fuel sc params c p n1 n2 fmt body ctx isSet st ws stb bws,
